@@ -474,7 +474,14 @@ fn contract(u: i64, live: &[Vec<i64>], max: i64, grant: bool, idle: bool) -> Opt
     let sum: i64 = live.iter().flatten().sum();
     let ntop = live.iter().flatten().filter(|&&s| s < 0).count();
     if u != sum {
-        let kind = if u < sum { "below (underflow / lost add)" } else { "above (leak / lost release)" };
+        let ult = if (u >= 0) == (sum >= 0) { u < sum } else { u >= 0 };
+        let kind = if ntop == 0 && u < 0 {
+            "wrapped below zero (underflow): far above"
+        } else if ult {
+            "below (lost add)"
+        } else {
+            "above (leak / lost release)"
+        };
         return Some(format!("used()={u} but the live reservations sum to {sum} (mod 2^64): usage is {kind} the sum"));
     }
     let fits = ntop == 0 || (ntop == 1 && sum < 0);
